@@ -26,6 +26,21 @@ NA = {
 }
 
 CHECKS = {
+    "C14": {
+        "property_id": "C14",
+        "quick_cmd": "timeout 900 ./check C14 quick",
+        "thorough_cmd": "timeout 7200 ./check C14 thorough",
+        "evidence_file": "evidence/C14.json",
+        "replay_cmd_template": "./check --replay {path}",
+        "engine": "pysim",
+        "level_claimed": {
+            "category": "exploration",
+            "text": "Seeded edit histories (add instance / string / file in four text formats, remove by index, index list, instance, instance list, allowed and required setters, de-duplication, reindex) on 1-3 live networks of different element-list configurations, interleaved by a seeded scheduler with each other and with foreign writers of the process-global parser tables, with open/read/parse faults on add-from-file; after every event every live network is compared with a recompute-from-scratch reference model over the simulator's own species identities. One run in five drives the 'naunet extend' pipeline in-process and checks its output files. Sampling, not proof.",
+            "design_ref": "DESIGN.md section 3",
+        },
+        "level_note": "Trusted: the reference model (sim/model.py, ~110 lines, no naunet imports), the spelling->identity tables of sim/world.py, and the reading of 'removal by instance' as the documented reaction equality applied to held reactions. Call-boundary interleavings only (naunet is single-threaded and never yields inside a call).",
+        "technique": "deterministic simulation: seeded scheduler over multi-session edit histories with I/O fault injection, step-by-step refinement check against an executable reference model, ddmin-minimised replay files",
+    },
     "C19": {
         "property_id": "C19",
         "quick_cmd": "timeout 900 ./check C19 quick",
@@ -66,6 +81,8 @@ def main():
             "add_only": True,
         },
         "engines": [
+            {"name": "pysim", "path": "sim/c14.py", "serves_properties": ["C14"],
+             "kind_free_text": "in-process multi-session simulator of the Python package: seeded scheduler, patched open/clock/tqdm seams, reference models, ddmin, replay files"},
             {"name": "cxxsim", "path": "sim/c19.py", "serves_properties": ["C19"],
              "kind_free_text": "rendered C++ compiled against a scripted mock integrator; seeded fault sequences, ddmin, replay files"},
         ],
